@@ -2,13 +2,19 @@
 From Coq Require Import ZArith NArith List Bool.
 From GoCoap Require Import Base.Cases Base.Bytes Gen.ServerConsts NoResp.Model Dedup.Model Dedup.Spec Server.Model Server.Spec.
 From GoCoap Require Monitor.Model Server.KeepAlive.
-From GoCoap Require Import Server.Addr Server.TokenKey.
+From GoCoap Require Import Server.Addr Server.TokenKey Server.OptGrow Server.Queue.
 Import ListNotations.
 Open Scope Z_scope.
 
 (* a datagram as the harness sent it: literal, or prefix ++ gen_body salt n (oversize ones) *)
-Inductive dg := DLit (b : list Z) | DGen (pre : list Z) (salt : Z) (n : Z).
-Definition dg_bytes (d : dg) : list Z := match d with DLit b => b | DGen p s n => p ++ gen_body s (Z.to_nat n) end.
+Inductive dg := DLit (b : list Z) | DGen (pre : list Z) (salt : Z) (n : Z)
+              | DRep (pre : list Z) (b : Z) (n : Z) (post : list Z).     (* pre ++ n times the byte b ++ post *)
+Definition dg_bytes (d : dg) : list Z :=
+  match d with
+  | DLit b => b
+  | DGen p s n => p ++ gen_body s (Z.to_nat n)
+  | DRep p b n q => p ++ repeat b (Z.to_nat n) ++ q
+  end.
 
 (* one datagram sent by a peer: bytes, (well-behaved clients) the request it encodes, the answer observed *)
 Record send := SD { s_dg : dg; s_req : option greq; s_obs : option owire }.
@@ -48,7 +54,28 @@ Inductive rstep :=
                                                                       answers; observed: the connection, the answer came back
                                                                       to the request, the answer reached the application *)
 
+(* one message handed to pool.Message.UnmarshalWithDecoder; the harness's decoder counts the attempts of the
+   loop in Message.decode, records cap(m.Options) at each of them, and ends the loop with an error of its own
+   at attempt number limit + 1 *)
+Record pdstep := PD { pd_fresh : bool;       (* a new pooled message (pool.NewMessage) is used from this message on *)
+                      pd_hdr : Z;            (* tcp: length of the frame header (the options start there) *)
+                      pd_dg : dg; pd_limit : Z;
+                      pd_caps : list Z;      (* observed: capacity of the option table at each attempt *)
+                      pd_ret : bool;         (* observed: the call returned without the cut-off *)
+                      pd_res : Z;            (* observed: 0 = decoded, 1.. = error class (derr_num), 98 = another error, 99 = panic *)
+                      pd_nopts : Z; pd_plen : Z (* observed when decoded: options kept, payload length *) }.
+
+(* one peer of a burst run: it sent the requests 0 .. n-1 back to back; observed: the order the application saw them in *)
+Record bpeer := BP { bp_n : Z; bp_order : list Z }.
+
 Inductive case :=
+(* a live udp server with ReceivedMessageQueueSize = qsize; the handler of the first request is held while the peers
+   send their bursts; witness: 1 = the read loop was seen waiting in Conn.Process for a slot, 2 = the socket was seen
+   empty with the read loop back in its read, 0 = neither within the watchdog *)
+| BurstRun (qsize : Z) (peers : list bpeer) (witness : Z) (alive probe stopped : bool) (panics : Z)
+(* a sequence of received messages decoded by ONE pooled message (NewMessage, then Reset before each, as
+   Pool.ReleaseMessage / AcquireMessage do), udp coder or tcp coder *)
+| PoolSeq (tcp : bool) (steps : list pdstep)
 | UdpRun (maxsize : Z) (lst : addr) (dst : option ip) (peers : list peer_obs) (sched : list nat)
          (alive probe stopped : bool) (panics : Z)
 (* getConnKey(r1,l1) == getConnKey(r2,l2) ?  and the two fallback helpers on l1 *)
@@ -333,8 +360,64 @@ Definition disc_tokens (steps : list (dstep * addr * list Z)) : list (list Z) :=
                      | DS_Start t _ _ | DS_StartFail t _ _ | DS_End t | DS_Resp _ t _ _ _ => [t]
                      | DS_Ping => [] end) steps.
 
+(* ---- the decode loop of a pooled message ---- *)
+Definition derr_num (e : derr) : Z :=
+  match e with ETrunc => 1 | EVersion => 2 | ETokenLen => 3 | EOptMarker => 4 | EOptTrunc => 5 | EOptNum => 6 end.
+(* projection of a decode result: (class, options kept, payload length) *)
+Definition pd_proj_udp (r : dres cmsg) : dres (Z * Z * Z) :=
+  match r with
+  | DOk m => DOk (0, blen (m_opts m), blen (m_pay m))
+  | DErr e => DOk (derr_num e, 0, 0)
+  | DPanic => DPanic
+  end.
+(* tcp/coder.DecodeWithHeader on a frame with a request code: Options.Unmarshal over data[hdr:], the rest is payload *)
+Definition pd_proj_tcp (total : Z) (r : dres (Z * opts_t)) : dres (Z * Z * Z) :=
+  match r with
+  | DOk (proc, os) => DOk (0, blen os, total - proc)
+  | DErr e => DOk (derr_num e, 0, 0)
+  | DPanic => DPanic
+  end.
+Definition pd_dec (tcp : bool) (hdr : Z) (data : list Z) (cap : Z) : cres (Z * Z * Z) :=
+  if tcp then
+    let rest := skipn (Z.to_nat hdr) data in
+    match unmarshal_opts_cap cap (S (length rest)) rest 0 [] 0 with
+    | CTooSmall => CTooSmall
+    | CR r => CR (pd_proj_tcp (blen rest) r)
+    end
+  else match udp_decode_cap cap data with
+       | CTooSmall => CTooSmall
+       | CR r => CR (pd_proj_udp r)
+       end.
+(* the harness writes the capacities of the first 40 attempts into the case *)
+Definition pool_caps_kept : nat := 40.
+Fixpoint pool_seq_agrees (tcp : bool) (cap : Z) (steps : list pdstep) : bool :=
+  match steps with
+  | [] => true
+  | s :: r =>
+    let data := dg_bytes (pd_dg s) in
+    let cap := if pd_fresh s then 16 else cap in
+    let '(t, res) := retry_loop grow (pd_dec tcp (pd_hdr s) data) (Z.to_nat (pd_limit s)) cap in
+    list_eqb Z.eqb (firstn pool_caps_kept t) (pd_caps s)
+    && match res with
+       | Some (DOk (c, n, p)) => pd_ret s && (c =? pd_res s) && ((negb (c =? 0)) || ((n =? pd_nopts s) && (p =? pd_plen s)))
+       | Some _ => false                 (* the model's decoder never slices out of range (udp_decode_no_panic) *)
+       | None => negb (pd_ret s)
+       end
+    && pool_seq_agrees tcp (last t cap) r
+  end.
+
+(* the queue model on a schedule that lets both loops run until nothing is left (by Queue.queue_complete every such
+   schedule gives the arrival sequence) *)
+Definition burst_model_order (qsize n : Z) : list Z :=
+  q_done (qrun (Z.to_nat qsize) (map Z.of_nat (seq 0 (Z.to_nat n)))
+               (concat (repeat [QRead; QHandle] (Z.to_nat n)))).
+
 Definition agrees (c : case) : bool :=
   match c with
+  | BurstRun qsize peers _ alive probe stopped panics =>
+      alive && probe && stopped && (panics =? 0) && (0 <? qsize)
+      && forallb (fun p => list_eqb Z.eqb (bp_order p) (burst_model_order qsize (bp_n p))) peers
+  | PoolSeq tcp steps => pool_seq_agrees tcp 16 steps
   | KeyRep r1 l1 r2 l2 oe of ow =>
       valid_addr r1 && valid_addr l1 && valid_addr r2 && valid_addr l2
       && Bool.eqb (key_c_eqb (key_c r1 l1) (key_c r2 l2)) oe
@@ -389,6 +472,9 @@ Definition agrees (c : case) : bool :=
 
 Definition pclass (c : case) : N :=
   match c with
+  | BurstRun _ peers _ alive probe stopped panics =>
+      c10_burst_class alive probe stopped panics (map (fun p => (bp_n p, bp_order p)) peers)
+  | PoolSeq _ steps => c10_decode_class (map pd_ret steps) (map (fun s => pd_res s =? 99) steps)
   | UdpRun _ _ _ peers _ alive probe stopped panics =>
       let c := c10_run_class alive probe stopped panics (goods_of peers) in
       if negb (N.eqb c 0) then c
